@@ -27,7 +27,7 @@ Case(gv, p, kind) ==
       diff  == {x \in alts : x.out # ideal}
   IN [gv |-> gv, pol |-> p, kind |-> kind,
       exp |-> [ideal |-> ideal, alts |-> SetToSeq(diff)],
-      orders |-> IF ConflictP(p, gv) /\ "DupDependsOnOrder" \in Known THEN OutcomesOverOrders(opts, gv) ELSE {}]
+      orders |-> IF ConflictP(p, gv) /\ "DupDependsOnOrder" \in Known THEN OrdersOf(opts, gv) ELSE {}]
 
 Init == es = <<>> /\ pol \in cPolSet /\ bk = -1 /\ cs = <<>>
 Grow == /\ bk = -1 /\ Len(es) < MaxEntries
